@@ -160,6 +160,58 @@ for be, defs in BACKENDS.items():
             expect=['assertion', 'memory-leak'], functions=['eav_init', 'eav_setup', 'eav_is_email', 'eav_errstr', 'eav_free', 'eav_result_free'],
             files=['partial/%s/eav.c' % be, 'src/eav.c'], assumptions=[A2, A7],
             note='no contracts: real functions inlined on one symbolic history (4 validations, 2 init/free cycles); complete for that history shape, all settings symbolic'))
+# ---- C06 variants of the scanner jobs: safety-only contracts and invariants (no ghost automaton), so that the
+#      memory-safety / termination / frame proof does not depend on the functional specification
+SAFE_JOBS = []
+for fn, src in (('is_822_local', 'src/is_822_local.c'), ('is_5321_local', 'src/is_5321_local.c'), ('is_5322_local', 'src/is_5322_local.c'),
+                ('is_ascii_domain', 'src/is_ascii_domain.c'), ('is_ipv4', 'src/is_ipv4_ipv6.c')):
+    add(Job('safe_' + fn, 'harness/%s.c' % fn, enforce=fn, loops=True, defines=['-DSAFETY_ONLY'], timeout=900, reach=1,
+            expect=['loop_invariant_base', 'loop_invariant_step', 'loop_decreases', 'postcondition'],
+            functions=[fn], files=[src], assumptions=[A1, A9] + ([A5] if fn == 'is_ipv4' else []),
+            note='safety-only contract: pointer validity incl. look-behind/look-ahead, no overflow, frame (assigns nothing visible), variant end-cp (linear termination), result range'))
+    SAFE_JOBS.append('safe_' + fn)
+# ---- C17: option builds
+add(Job('is_6531_local+rfc20', 'harness/is_6531_local.c', enforce='is_6531_local', loops=True, timeout=2400, reach=3, defines=['-DRFC6531_FOLLOW_RFC20'],
+        extra_sources=['src/utf8_decode.c'], expect=['postcondition', 'loop_invariant_base', 'loop_invariant_step', 'loop_decreases', 'assigns'],
+        functions=['is_6531_local (RFC6531_FOLLOW_RFC20 build)'], files=['src/is_6531_local.c', 'src/utf8_decode.c'], assumptions=[A1, A9]))
+add(Job('is_ascii_domain+underscore', 'harness/is_ascii_domain.c', enforce='is_ascii_domain', loops=True, timeout=900, reach=3, defines=['-DLABELS_ALLOW_UNDERSCORE'],
+        expect=['postcondition', 'loop_invariant_base', 'loop_invariant_step', 'loop_decreases', 'assigns'],
+        functions=['is_ascii_domain (LABELS_ALLOW_UNDERSCORE build)'], files=['src/is_ascii_domain.c'], assumptions=[A1, A9]))
+
+
+def _options_scan(job, r):
+    """text facts for C17: the three option macros are used only where the property says they act, and the Makefiles default them OFF"""
+    import re, glob
+    opts = {'RFC6531_FOLLOW_RFC20': {'src/is_6531_local.c'}, 'RFC6531_FOLLOW_RFC5322': {'src/is_6531_local.c'}, 'LABELS_ALLOW_UNDERSCORE': {'src/is_ascii_domain.c'}}
+    files = []
+    for pat in ('src/*.c', 'src/*.h', 'include/*.h', 'include/eav/*.h', 'partial/*/*.c'):
+        files += glob.glob(os.path.join(REPO, pat))
+    for opt, allowed in opts.items():
+        users = set()
+        for f in files:
+            if re.search(r'\b%s\b' % opt, open(f, errors='replace').read()):
+                users.add(os.path.relpath(f, REPO))
+        ok = users <= allowed and users
+        r.obligations.append(dict(name='options_scan.%s.users' % opt, description='option %s is referenced only in %s (found: %s)' % (opt, sorted(allowed), sorted(users)),
+                                  status='SUCCESS' if ok else 'FAILURE', file='', line='', function=''))
+        mk = open(os.path.join(REPO, 'Makefile')).read()
+        dflt = re.search(r'ifndef %s\s*\nexport %s = OFF' % (opt, opt), mk) is not None
+        maps = re.search(r'ifeq \(\$\(%s\),ON\)\s*\nCPPFLAGS \+= -D%s\b' % (opt, opt), mk) is not None
+        r.obligations.append(dict(name='options_scan.%s.makefile' % opt, description='Makefile: %s defaults to OFF and ON maps to -D%s' % (opt, opt),
+                                  status='SUCCESS' if (dflt and maps) else 'FAILURE', file='Makefile', line='', function=''))
+    r.backend = 'text scan (supporting static fact, not a CBMC proof obligation)'
+    r.cmds.append('vlib/props.py:_options_scan (regular expressions over /repo sources and Makefile)')
+    r.status = 'failed' if r.failed else 'proved'
+
+
+add(Job('options_scan', 'vlib/props.py', pyfunc=_options_scan, timeout=60, functions=['option macros'], files=['Makefile', 'src'],
+        note='supporting text fact'))
+add(Job('lemma_rank', 'harness/lemma_rank.c', loops=True, defines=['-DPART_MONO'], timeout=300, reach=1,
+        expect=['loop_invariant_base', 'loop_invariant_step', 'loop_decreases', 'assertion'], functions=['dot-rank function (lemma, induction by loop contract)'], files=[],
+        note='rank is defined by the step axiom, which is the only assumption inside the loop'))
+add(Job('lemma_rank_inst', 'harness/lemma_rank.c', no_dfcc=True, defines=['-DPART_INST'], timeout=300, reach=1, expect=['assertion'],
+        functions=['dot-rank function (the four instance shapes assumed by the strchr model)'], files=[],
+        note='loop-free; monotonicity instances are assumed here and proved in lemma_rank'))
 add(Job('lemma_local', 'harness/lemma_local.c', no_dfcc=True, timeout=300, reach=1, expect=['assertion'],
         functions=['spec automata (lemmas)'], files=[], note='loop-free over a symbolic (state, character) pair: complete'))
 
